@@ -106,12 +106,23 @@ for lang, G in (('en', en), ('ja', ja)):
     table = {}
     for k, v in un:
         table.setdefault(Category.parse(k), []).append(Category.parse(v))
+    import collections
     for x in inv + list(table):
         n += 1
         r = outcome(G.apply_unary_rules, x, table)
         want = [str_spec(c) for c in table.get(x, [])]
         if r[0] != 'return' or [str_spec(z.cat) for z in r[1]] != want:
             fail('unary rules are not exactly the configured targets, in order', lang=lang, x=str_spec(x), got=repr(r)[:200], want=want)
+    # the table as the project's own loader builds it (depccg/allennlp/utils.py: a defaultdict(list)): the argument stays unchanged
+    dtable = collections.defaultdict(list)
+    for k_, v_ in table.items():
+        dtable[k_] = list(v_)
+    before = {k_: list(v_) for k_, v_ in dtable.items()}
+    for x in inv + list(table):
+        n += 1
+        outcome(G.apply_unary_rules, x, dtable)
+    if {k_: list(v_) for k_, v_ in dtable.items()} != before:
+        fail('apply_unary_rules modifies the unary table it is given (defaultdict table)', lang=lang, keys_before=len(before), keys_after=len(dtable))
 
 # hash-seed independence: synthetic pairs with several occurrences of a feature variable bound to different values
 child = r'''
